@@ -583,3 +583,89 @@ package zerolog
 //@   loop 1:
 //@     invariant 0 <= rangeindex + 1 && rangeindex + 1 <= len(writers)
 //@     invariant len(lwriters) == rangeindex + 1 && (forall k in 0..rangeindex+1: lwriters[k] != nil)
+
+// ---------------------------------------------------------------------------
+// writer.go: TriggerLevelWriter (C15). Abstract view: the held lines are the
+// ghost content of w.buf, a sequence of frames (level byte, line ending in
+// its only newline). trigger() is proved to walk that content frame by frame:
+// the destination calls it makes are consecutive windows of the buffer (each
+// line starts one byte after the previous one ends, the first one byte after
+// the start, the last ends at the end), each with the level stored in the byte
+// before it - nothing lost, duplicated, reordered or altered.
+
+//@ track io.Writer.Write, TriggerLevelWriter.trigger
+//@ spec framed(b bytes) bool = len(b) == 0 || b[len(b)-1] == 10
+//@ spec emptybuf(b ref) bool = len(content(b)) == 0
+//@ pool triggerWriterPool *bytes.Buffer emptybuf
+
+//@ func (*TriggerLevelWriter).trigger(w) err
+//@   props C15
+//@   arith int
+//@   flag noovf
+//@   flag guarded mu buf triggered
+//@   requires w != nil && held(w.mu) && w.Writer != nil
+//@   requires w.buf != nil ==> framed(content(w.buf))
+//@   ensures w.triggered
+//@   ensures old(w.triggered) ==> err == nil && ncalls(LevelWriter.WriteLevel) == old(ncalls(LevelWriter.WriteLevel)) && ncalls(io.Writer.Write) == old(ncalls(io.Writer.Write))
+//@   ensures !old(w.triggered) && w.buf == nil ==> err == nil && ncalls(LevelWriter.WriteLevel) == old(ncalls(LevelWriter.WriteLevel)) && ncalls(io.Writer.Write) == old(ncalls(io.Writer.Write))
+//@   ensures w.buf == old(w.buf) && w.Writer == old(w.Writer) && w.TriggerLevel == old(w.TriggerLevel) && w.ConditionalLevel == old(w.ConditionalLevel)
+//@   ensures !old(w.triggered) && w.buf != nil ==> (ncalls(LevelWriter.WriteLevel) > old(ncalls(LevelWriter.WriteLevel)) ==> off(callarg(LevelWriter.WriteLevel, old(ncalls(LevelWriter.WriteLevel)), 2)) == off(content(w.buf)) + 1)
+//@   ensures !old(w.triggered) && w.buf != nil ==> (forall k in old(ncalls(LevelWriter.WriteLevel))..ncalls(LevelWriter.WriteLevel): samearray(callarg(LevelWriter.WriteLevel, k, 2), content(w.buf)) && callarg(LevelWriter.WriteLevel, k, 0) == w.Writer && off(callarg(LevelWriter.WriteLevel, k, 2)) >= off(content(w.buf)) + 1 && callarg(LevelWriter.WriteLevel, k, 1) == int8(arrat(content(w.buf), off(callarg(LevelWriter.WriteLevel, k, 2)) - 1)))
+//@   ensures !old(w.triggered) && w.buf != nil ==> (forall k in old(ncalls(LevelWriter.WriteLevel))..ncalls(LevelWriter.WriteLevel) - 1: off(callarg(LevelWriter.WriteLevel, k + 1, 2)) == off(callarg(LevelWriter.WriteLevel, k, 2)) + len(callarg(LevelWriter.WriteLevel, k, 2)) + 1)
+//@   ensures !old(w.triggered) && w.buf != nil && err == nil && ncalls(LevelWriter.WriteLevel) > old(ncalls(LevelWriter.WriteLevel)) ==> off(callarg(LevelWriter.WriteLevel, ncalls(LevelWriter.WriteLevel) - 1, 2)) + len(callarg(LevelWriter.WriteLevel, ncalls(LevelWriter.WriteLevel) - 1, 2)) == off(content(w.buf)) + len(content(w.buf))
+//@   ensures !old(w.triggered) && w.buf != nil ==> (ncalls(io.Writer.Write) > old(ncalls(io.Writer.Write)) ==> off(callarg(io.Writer.Write, old(ncalls(io.Writer.Write)), 1)) == off(content(w.buf)) + 1)
+//@   ensures !old(w.triggered) && w.buf != nil ==> (forall k in old(ncalls(io.Writer.Write))..ncalls(io.Writer.Write): samearray(callarg(io.Writer.Write, k, 1), content(w.buf)) && callarg(io.Writer.Write, k, 0) == w.Writer && off(callarg(io.Writer.Write, k, 1)) >= off(content(w.buf)) + 1)
+//@   ensures !old(w.triggered) && w.buf != nil ==> (forall k in old(ncalls(io.Writer.Write))..ncalls(io.Writer.Write) - 1: off(callarg(io.Writer.Write, k + 1, 1)) == off(callarg(io.Writer.Write, k, 1)) + len(callarg(io.Writer.Write, k, 1)) + 1)
+//@   ensures !old(w.triggered) && w.buf != nil && err == nil && ncalls(io.Writer.Write) > old(ncalls(io.Writer.Write)) ==> off(callarg(io.Writer.Write, ncalls(io.Writer.Write) - 1, 1)) + len(callarg(io.Writer.Write, ncalls(io.Writer.Write) - 1, 1)) == off(content(w.buf)) + len(content(w.buf))
+//@   ensures !old(w.triggered) && w.buf != nil && err == nil && ncalls(LevelWriter.WriteLevel) == old(ncalls(LevelWriter.WriteLevel)) && ncalls(io.Writer.Write) == old(ncalls(io.Writer.Write)) ==> len(content(w.buf)) == 0
+//@   ensures implements(w.Writer, "LevelWriter") ==> ncalls(io.Writer.Write) == old(ncalls(io.Writer.Write))
+//@   ensures !implements(w.Writer, "LevelWriter") ==> ncalls(LevelWriter.WriteLevel) == old(ncalls(LevelWriter.WriteLevel))
+//@   loop 1:
+//@     invariant w.buf != nil && w.triggered && samearray(p, content(w.buf)) && off(p) >= off(content(w.buf)) && off(p) + len(p) == off(content(w.buf)) + len(content(w.buf)) && framed(p) && framed(content(w.buf))
+//@     invariant implements(w.Writer, "LevelWriter") ==> ncalls(io.Writer.Write) == old(ncalls(io.Writer.Write)) && ncalls(LevelWriter.WriteLevel) >= old(ncalls(LevelWriter.WriteLevel))
+//@     invariant !implements(w.Writer, "LevelWriter") ==> ncalls(LevelWriter.WriteLevel) == old(ncalls(LevelWriter.WriteLevel)) && ncalls(io.Writer.Write) >= old(ncalls(io.Writer.Write))
+//@     invariant ncalls(LevelWriter.WriteLevel) > old(ncalls(LevelWriter.WriteLevel)) ==> off(callarg(LevelWriter.WriteLevel, old(ncalls(LevelWriter.WriteLevel)), 2)) == off(content(w.buf)) + 1
+//@     invariant forall k in old(ncalls(LevelWriter.WriteLevel))..ncalls(LevelWriter.WriteLevel): samearray(callarg(LevelWriter.WriteLevel, k, 2), content(w.buf)) && callarg(LevelWriter.WriteLevel, k, 0) == w.Writer && off(callarg(LevelWriter.WriteLevel, k, 2)) >= off(content(w.buf)) + 1 && callarg(LevelWriter.WriteLevel, k, 1) == int8(arrat(content(w.buf), off(callarg(LevelWriter.WriteLevel, k, 2)) - 1))
+//@     invariant forall k in old(ncalls(LevelWriter.WriteLevel))..ncalls(LevelWriter.WriteLevel) - 1: off(callarg(LevelWriter.WriteLevel, k + 1, 2)) == off(callarg(LevelWriter.WriteLevel, k, 2)) + len(callarg(LevelWriter.WriteLevel, k, 2)) + 1
+//@     invariant ncalls(LevelWriter.WriteLevel) > old(ncalls(LevelWriter.WriteLevel)) ==> off(callarg(LevelWriter.WriteLevel, ncalls(LevelWriter.WriteLevel) - 1, 2)) + len(callarg(LevelWriter.WriteLevel, ncalls(LevelWriter.WriteLevel) - 1, 2)) == off(p)
+//@     invariant ncalls(io.Writer.Write) > old(ncalls(io.Writer.Write)) ==> off(callarg(io.Writer.Write, old(ncalls(io.Writer.Write)), 1)) == off(content(w.buf)) + 1
+//@     invariant forall k in old(ncalls(io.Writer.Write))..ncalls(io.Writer.Write): samearray(callarg(io.Writer.Write, k, 1), content(w.buf)) && callarg(io.Writer.Write, k, 0) == w.Writer && off(callarg(io.Writer.Write, k, 1)) >= off(content(w.buf)) + 1
+//@     invariant forall k in old(ncalls(io.Writer.Write))..ncalls(io.Writer.Write) - 1: off(callarg(io.Writer.Write, k + 1, 1)) == off(callarg(io.Writer.Write, k, 1)) + len(callarg(io.Writer.Write, k, 1)) + 1
+//@     invariant ncalls(io.Writer.Write) > old(ncalls(io.Writer.Write)) ==> off(callarg(io.Writer.Write, ncalls(io.Writer.Write) - 1, 1)) + len(callarg(io.Writer.Write, ncalls(io.Writer.Write) - 1, 1)) == off(p)
+//@     invariant ncalls(LevelWriter.WriteLevel) == old(ncalls(LevelWriter.WriteLevel)) && ncalls(io.Writer.Write) == old(ncalls(io.Writer.Write)) ==> off(p) == off(content(w.buf))
+
+//@ func (*TriggerLevelWriter).WriteLevel(w, l, p) n, err
+//@   props C15
+//@   arith int
+//@   flag noovf
+//@   flag guarded mu buf triggered
+//@   flag replay trigger_writer
+//@   requires w != nil && !held(w.mu) && w.Writer != nil && len(p) > 0 && p[len(p)-1] == 10 && l != 10
+//@   requires w.buf != nil ==> framed(content(w.buf))
+//@   ensures !held(w.mu)
+//@   ensures w.buf != nil ==> framed(content(w.buf))
+//@   ensures !old(w.triggered) && l < w.TriggerLevel && l <= w.ConditionalLevel ==> n == len(p) && err == nil && !w.triggered && w.buf != nil && ncalls(LevelWriter.WriteLevel) == old(ncalls(LevelWriter.WriteLevel)) && ncalls(io.Writer.Write) == old(ncalls(io.Writer.Write)) && ncalls(TriggerLevelWriter.trigger) == old(ncalls(TriggerLevelWriter.trigger))
+//@   ensures !old(w.triggered) && l < w.TriggerLevel && l <= w.ConditionalLevel ==> len(content(w.buf)) == ite(old(w.buf) == nil, 0, old(len(content(w.buf)))) + 1 + len(p) && content(w.buf)[ite(old(w.buf) == nil, 0, old(len(content(w.buf))))] == uint8(l) && contentat(content(w.buf), ite(old(w.buf) == nil, 0, old(len(content(w.buf)))) + 1, p)
+//@   ensures !old(w.triggered) && l < w.TriggerLevel && l <= w.ConditionalLevel && old(w.buf) != nil ==> w.buf == old(w.buf) && prefix(content(w.buf), old(content(w.buf)))
+//@   ensures old(w.triggered) || (l < w.TriggerLevel && l > w.ConditionalLevel) ==> w.triggered == old(w.triggered) && w.buf == old(w.buf) && ncalls(TriggerLevelWriter.trigger) == old(ncalls(TriggerLevelWriter.trigger)) && (w.buf != nil ==> same(content(w.buf), old(content(w.buf))))
+//@   ensures (old(w.triggered) || (l < w.TriggerLevel && l > w.ConditionalLevel)) && implements(w.Writer, "LevelWriter") ==> ncalls(LevelWriter.WriteLevel) == old(ncalls(LevelWriter.WriteLevel)) + 1 && ncalls(io.Writer.Write) == old(ncalls(io.Writer.Write)) && callarg(LevelWriter.WriteLevel, old(ncalls(LevelWriter.WriteLevel)), 0) == w.Writer && callarg(LevelWriter.WriteLevel, old(ncalls(LevelWriter.WriteLevel)), 1) == l && same(callarg(LevelWriter.WriteLevel, old(ncalls(LevelWriter.WriteLevel)), 2), p) && n == callres(LevelWriter.WriteLevel, old(ncalls(LevelWriter.WriteLevel)), 0) && err == callres(LevelWriter.WriteLevel, old(ncalls(LevelWriter.WriteLevel)), 1)
+//@   ensures (old(w.triggered) || (l < w.TriggerLevel && l > w.ConditionalLevel)) && !implements(w.Writer, "LevelWriter") ==> ncalls(io.Writer.Write) == old(ncalls(io.Writer.Write)) + 1 && ncalls(LevelWriter.WriteLevel) == old(ncalls(LevelWriter.WriteLevel)) && callarg(io.Writer.Write, old(ncalls(io.Writer.Write)), 0) == w.Writer && same(callarg(io.Writer.Write, old(ncalls(io.Writer.Write)), 1), p) && n == callres(io.Writer.Write, old(ncalls(io.Writer.Write)), 0) && err == callres(io.Writer.Write, old(ncalls(io.Writer.Write)), 1)
+//@   ensures !old(w.triggered) && l >= w.TriggerLevel ==> ncalls(TriggerLevelWriter.trigger) == old(ncalls(TriggerLevelWriter.trigger)) + 1 && w.triggered
+//@   ensures !old(w.triggered) && l >= w.TriggerLevel && callres(TriggerLevelWriter.trigger, old(ncalls(TriggerLevelWriter.trigger)), 0) != nil ==> n == 0 && err == callres(TriggerLevelWriter.trigger, old(ncalls(TriggerLevelWriter.trigger)), 0)
+//@   ensures !old(w.triggered) && l >= w.TriggerLevel && callres(TriggerLevelWriter.trigger, old(ncalls(TriggerLevelWriter.trigger)), 0) == nil && implements(w.Writer, "LevelWriter") ==> ncalls(LevelWriter.WriteLevel) > old(ncalls(LevelWriter.WriteLevel)) && callarg(LevelWriter.WriteLevel, ncalls(LevelWriter.WriteLevel) - 1, 1) == l && same(callarg(LevelWriter.WriteLevel, ncalls(LevelWriter.WriteLevel) - 1, 2), p) && n == callres(LevelWriter.WriteLevel, ncalls(LevelWriter.WriteLevel) - 1, 0) && err == callres(LevelWriter.WriteLevel, ncalls(LevelWriter.WriteLevel) - 1, 1)
+//@   ensures !old(w.triggered) && l >= w.TriggerLevel && callres(TriggerLevelWriter.trigger, old(ncalls(TriggerLevelWriter.trigger)), 0) == nil && !implements(w.Writer, "LevelWriter") ==> ncalls(io.Writer.Write) > old(ncalls(io.Writer.Write)) && same(callarg(io.Writer.Write, ncalls(io.Writer.Write) - 1, 1), p) && n == callres(io.Writer.Write, ncalls(io.Writer.Write) - 1, 0) && err == callres(io.Writer.Write, ncalls(io.Writer.Write) - 1, 1)
+
+//@ func (*TriggerLevelWriter).Trigger(w) err
+//@   props C15
+//@   arith int
+//@   flag guarded mu buf triggered
+//@   requires w != nil && !held(w.mu) && w.Writer != nil
+//@   requires w.buf != nil ==> framed(content(w.buf))
+//@   ensures !held(w.mu) && w.triggered && ncalls(TriggerLevelWriter.trigger) == old(ncalls(TriggerLevelWriter.trigger)) + 1 && err == callres(TriggerLevelWriter.trigger, old(ncalls(TriggerLevelWriter.trigger)), 0)
+
+//@ func (*TriggerLevelWriter).Close(w) err
+//@   props C15
+//@   arith int
+//@   flag guarded mu buf triggered
+//@   requires w != nil && !held(w.mu)
+//@   ensures !held(w.mu) && w.buf == nil && err == nil && ncalls(LevelWriter.WriteLevel) == old(ncalls(LevelWriter.WriteLevel)) && ncalls(io.Writer.Write) == old(ncalls(io.Writer.Write))
